@@ -137,7 +137,7 @@ CHECKS["C18"] = dict(
     note=NOTE_A, technique="CrossHair symbolic execution of ModelDecay.list_structure with symbolic particle types; solver-driven runs of "
     "the real code generators with the generated text parsed back", design="§2 C18", engine="crosshair")
 CHECKS["C19"] = dict(
-    text=LEVEL_TEXT_A + ". Restricted claim: function calls only (not the command-line entry point). 72 generated files + the shipped model, "
+    text=LEVEL_TEXT_A + ". Function calls for every file, the command-line entry point (subprocess) for a ninth of them. 72 generated files + the shipped model, "
          "four conversions each: returned text = printed text, cross-language equality of all declarations and amplitudes, "
          "declared-before-use, Python output executed against a stand-in goofit module." + ENUM,
     note=NOTE_A, technique="CrossHair-driven runs of ampgen2goofit / ampgen2goofitpy on a generated family; outputs parsed back, compared "
